@@ -35,8 +35,9 @@ for _c in ("ShareReal", "ShareInt", "ShareStr"):
 @hook("Act", "call")
 def _act_call(E, act, args, kwargs):
     """an act is an opaque callable: traced, returns an arbitrary truth value"""
-    E.ct_append("act", act, None)
+    slot = E.ct_append("act", act, None)
     v = E.fresh_val("act_result", BOOL)
+    E.ct_bind_result(slot, v)
     E.ghost.setdefault("act_results", []).append(v)
     return v
 
@@ -61,7 +62,13 @@ classdecl("Framer", file=FF, fields=FRAMER_F)
 # inside (acts, auxes, order) is its own contract in c09_auxes.py.
 FRAMER_RUN_FIELDS = {"Framer": ["main", "actives", "active", "done", "human", "status", "desire", "stamp",
                                 "elapsed", "recurred"]}
-OTHER_FRAMERS = havoc_all_but(FRAMER_RUN_FIELDS, keep=["self.framer"])
+# system-wide well-formedness (established by build/resolve, preserved by every run operation): the frames a
+# framer has active are its own frames
+ACTIVES_OWNED = ("forall(Ref('Framer'), lambda a: forall(lambda j: implies(0 <= j and j < len(a.actives), "
+                 "a.actives[j].framer is a)), trigger=lambda a: a.actives)")
+OTHER_FRAMERS = havoc_all_but(FRAMER_RUN_FIELDS, keep=["self.framer"], wf=[ACTIVES_OWNED])
+REG.assume_note("opaque parts (acts, auxiliary framers' runs) are assumed to preserve the ownership "
+                "well-formedness: every framer's active frames are frames of that framer")
 REG.assume_note("no re-entrancy: acts, needs and auxiliary framers run by a frame do not call methods of, nor write "
                 "fields of, the framer that owns that frame (their effects on store data are not modelled)")
 
